@@ -220,7 +220,10 @@ func check(c Case) (res vh.Result) {
 		return res
 	}
 	if mode&mX != 0 && excluded(fParen) {
-		bad := strings.HasPrefix(p.Malformed, "extended operator without")
+		// unclosed per bash's scanner, or malformed for another reason
+		// with a pattern list somewhere (whose end the translator may then
+		// place differently, again reaching the end of the pattern)
+		bad := globref.UnclosedGroup(c.Pattern) || (p.Malformed != "" && hasGroupOpener(c.Pattern))
 		p.Walk(func(n *globref.Node, depth int) {
 			if depth > 0 && n.IsLit() && n.R == '(' && n.End-n.Pos == 1 {
 				bad = true
@@ -391,7 +394,11 @@ func check(c Case) (res vh.Result) {
 			}
 		}
 	}
-	if !refOK {
+	if base.Malformed != "" {
+		// e.g. an invalid range inside a bracket that Filenames mode takes
+		// literally because of a "/": bash cannot vouch for the reference
+		class("ref-not-validated:malformed-without-filenames")
+	} else if !refOK {
 		class("ref-disagrees-with-bash")
 	}
 	entire := mode&mE != 0
@@ -472,6 +479,15 @@ func check(c Case) (res vh.Result) {
 		class("pattern:multibyte")
 	}
 	return res
+}
+
+func hasGroupOpener(pat string) bool {
+	for _, op := range []string{"?(", "*(", "+(", "@(", "!("} {
+		if strings.Contains(pat, op) {
+			return true
+		}
+	}
+	return false
 }
 
 func hasGroup(p *globref.Pattern) bool {
@@ -821,13 +837,13 @@ func TestC17Enum(t *testing.T) {
 	runEnum(t, []rune(`*?[]!-\ab/`), maxPat, maxStr, enumModes, []rune{'/', '.', 'c'})
 }
 
-// TestC17EnumExt: every pattern up to length 5 (6 in the thorough tier) over
+// TestC17EnumExt: every pattern up to length 4 (5 in the thorough tier) over
 // the alphabet ? * + @ ( | ) a b, with ExtendedOperators (bash judges the
 // EntireString mode; the reference the unanchored and Filenames ones), on
 // every string up to length 3 (4 for patterns up to length 4 in the thorough
 // tier) over the pattern's characters plus "a" and ".".
 func TestC17EnumExt(t *testing.T) {
-	maxPat := vh.Scale(5, 6)
+	maxPat := vh.Scale(4, 5)
 	maxStr := func(pl int) int {
 		if vh.Thorough() && pl <= 4 {
 			return 4
